@@ -1536,6 +1536,106 @@ theorem cosetExtrapolateWith_sound (t : Thr) (hT : 2 ≤ t.zf) (offset : K) (cod
   · exact fastCosetExtrapolate_sound root hN hE t hT offset codeword points hoff hsmall ω hω hprim out h
   · exact naiveCosetExtrapolate_sound root hN hE t offset codeword points ω hω hprim out h
 
+omit hN hE in
+theorem length_of_mem_codewordSlices {α : Type} (n : Nat) (cws cw : List α) (h : cw ∈ codewordSlices n cws) :
+    cw.length = n := by
+  unfold codewordSlices at h
+  obtain ⟨i, hi, rfl⟩ := List.mem_map.1 h
+  have hi' : i < cws.length / n := List.mem_range.1 hi
+  have h1 : (i + 1) * n ≤ cws.length := le_trans (Nat.mul_le_mul_right n hi') (Nat.div_mul_le_self _ _)
+  simp only [List.length_take, List.length_drop]
+  have : i * n + n ≤ cws.length := by rw [← Nat.succ_mul]; exact h1
+  omega
+
+/-- what one codeword contributes to the batch result -/
+def SliceOK (offset ω : K) (n : Nat) (points : List K) (cw part : List K) : Prop :=
+  ∃ g : K[X], Interpolates (cosetDomain offset ω n) cw g ∧ part = points.map (fun x => g.eval x)
+
+omit hN hE in
+theorem mapM_option_forall₂_mem {α β : Type} {f : α → Option β} {P : α → β → Prop} :
+    ∀ (l : List α) (bs : List β), (∀ a ∈ l, ∀ b, f a = some b → P a b) → l.mapM f = some bs →
+      List.Forall₂ P l bs := by
+  intro l
+  induction l with
+  | nil => intro bs _ hbs; simp at hbs; subst hbs; exact List.Forall₂.nil
+  | cons a l ih =>
+    intro bs h hbs
+    rw [List.mapM_cons] at hbs
+    obtain ⟨b, hb, hbs⟩ := Option.bind_eq_some_iff.1 hbs
+    obtain ⟨bs', hbs', hbs⟩ := Option.bind_eq_some_iff.1 hbs
+    simp only [Option.pure_def, Option.some.injEq] at hbs
+    subst hbs
+    exact List.Forall₂.cons (h a (by simp) b hb) (ih bs' (fun x hx => h x (by simp [hx])) hbs')
+
+/-- `batch_coset_extrapolate` / `par_batch_coset_extrapolate`: every codeword of the batch is extrapolated as by
+    interpolate-then-evaluate, results concatenated in order (Lagrange and INTT arms of the fast strategy) -/
+theorem batchCosetExtrapolateWith_sound (t : Thr) (hT : 2 ≤ t.zf) (offset : K) (n : Nat) (codewords points : List K)
+    (hoff : offset ≠ 0) (hsmall : n ≤ t.intt ∨ n < t.lag) (ω : K)
+    (hω : root n = some ω) (hprim : ((List.range n).map (fun i => ω ^ i)).Nodup)
+    (out : List K) (h : batchCosetExtrapolateWith FK E t offset n codewords points = some out) :
+    ∃ parts, List.Forall₂ (SliceOK offset ω n points) (codewordSlices n codewords) parts ∧ out = parts.flatten := by
+  unfold batchCosetExtrapolateWith at h
+  split at h
+  · obtain ⟨tree, htree, h⟩ := Option.bind_eq_some_iff.1 h
+    obtain ⟨pre, hpre, h⟩ := Option.bind_eq_some_iff.1 h
+    obtain ⟨parts, hparts, h⟩ := Option.bind_eq_some_iff.1 h
+    simp only [Option.pure_def, Option.some.injEq] at h
+    obtain ⟨hg, hpts⟩ := newFromDomainWith_sound root hE t.rt t.zf points tree htree
+    obtain ⟨hpm, _⟩ := fmciPreprocess_modulus root _ _ _ _ hpre
+    refine ⟨parts, ?_, h.symm⟩
+    apply mapM_option_forall₂_mem _ _ _ hparts
+    intro cw hcw part hpart
+    have hlen := length_of_mem_codewordSlices n codewords cw hcw
+    obtain ⟨mi, hmi, hpart⟩ := Option.bind_eq_some_iff.1 hpart
+    obtain ⟨g, hgI, hgm⟩ := fmciWith_sound_small root hN hE t hT cw offset _ pre hpm hoff (by rw [hlen]; exact hsmall)
+      ω (by rw [hlen]; exact hω) (by rw [hlen]; exact hprim) mi hmi
+    rw [hlen] at hgI
+    refine ⟨g, hgI, ?_⟩
+    rw [dcEval_spec root hE mi tree hg, hpts] at hpart
+    simp only [Option.some.injEq] at hpart
+    rw [← hpart]
+    apply List.map_congr_left
+    intro x hx
+    rw [hgm, hg.zerofier root, hpts]
+    exact eval_mod_of_root _ _ x ((eval_zpoly_eq_zero_iff points x).2 hx)
+  · obtain ⟨tree, htree, h⟩ := Option.bind_eq_some_iff.1 h
+    obtain ⟨hg, hpts⟩ := newFromDomainWith_sound root hE t.rt t.zf points tree htree
+    simp only at h
+    split at h
+    · simp at h
+    · next hmz =>
+      have hm : denote (tree.zerofier FK) ≠ 0 := fun h0 => hmz ((isZero_iff root _).2 h0)
+      split at h
+      · simp at h
+      · obtain ⟨parts, hparts, h⟩ := Option.bind_eq_some_iff.1 h
+        simp only [Option.pure_def, Option.some.injEq] at h
+        refine ⟨parts, ?_, h.symm⟩
+        apply mapM_option_forall₂_mem _ _ _ hparts
+        intro cw hcw part hpart
+        have hlen := length_of_mem_codewordSlices n codewords cw hcw
+        obtain ⟨c, hc, hpart⟩ := Option.bind_eq_some_iff.1 hpart
+        split at hpart
+        · simp at hpart
+        · next hoffz =>
+          have hfi : fastCosetInterpolate FK E offset cw = some (scale FK c ((FK).inv offset)) := by
+            unfold fastCosetInterpolate
+            rw [hc]; simp [hoffz]
+          have hgI := fastCosetInterpolate_sound root hN offset cw ω (by rw [hlen]; exact hω)
+            (by rw [hlen]; exact hprim) _ hfi
+          rw [hlen] at hgI
+          refine ⟨_, hgI, ?_⟩
+          rw [dcEval_spec root hE _ tree hg, hpts] at hpart
+          simp only [Option.some.injEq] at hpart
+          rw [← hpart]
+          apply List.map_congr_left
+          intro x hx
+          obtain ⟨q, hq⟩ := hE.redNtt (scale FK c ((FK).inv offset)) (tree.zerofier FK) hm
+          have hroot : (denote (tree.zerofier FK)).eval x = 0 := by
+            rw [hg.zerofier root, hpts]; exact (eval_zpoly_eq_zero_iff points x).2 hx
+          have := congrArg (eval x) hq
+          simp only [eval_sub, eval_mul, hroot, zero_mul] at this
+          exact sub_eq_zero.1 this
+
 end coset
 
 
